@@ -685,7 +685,7 @@ class Emitter:
             cx.allocs += 1
             x = place_var(recv)
             sp = cx.fresh("sp")
-            return self.tr(args[0], env, cx, lambda at, _: f"match str_split_at {x} {at} with Ret {sp} => let {x} := (fst {sp}) in {k(f'(snd {sp})', 'String')} | Panic => Panic | OutOfFuel => OutOfFuel end")
+            return self.tr(args[0], env, cx, lambda at, _: f"match str_split_off {x} {at} with Ret {sp} => let {x} := (fst {sp}) in {k(f'(snd {sp})', 'String')} | Panic => Panic | OutOfFuel => OutOfFuel end")
         if cx.display and base == "fmt" and len(args) == 1:
             def shown(t, ty):
                 txt = self.display_text(t, ty)
